@@ -309,6 +309,34 @@ func checkC05(c *C05Case) Result {
 		res.Fail = f
 		return res
 	}
+	// readers of closed transactions must stay silent while the recycled object holds a new body
+	if len(readers) > 0 {
+		if f := guard("stale reader check", func() {
+			tx := used.NewTransaction()
+			tx.ProcessURI("/n", "POST", "HTTP/1.1")
+			tx.AddRequestHeader("Content-Type", "application/x-www-form-urlencoded")
+			tx.ProcessRequestHeaders()
+			_, _, _ = tx.WriteRequestBody([]byte("fresh=NEW-TRANSACTION-BODY-THAT-SPILLS-TO-DISK"))
+			tx.AddResponseHeader("Content-Type", "text/plain")
+			tx.ProcessResponseHeaders(200, "HTTP/1.1")
+			_, _, _ = tx.WriteResponseBody([]byte("NEW-RESPONSE"))
+			for i, r := range readers {
+				buf := make([]byte, 64)
+				if n, _ := r.Read(buf); n != 0 {
+					structural = failf("body reader #%d of a closed transaction returned %q: bytes of the NEXT transaction served by the recycled object", i, buf[:n])
+				}
+			}
+			tx.ProcessLogging()
+			_ = tx.Close()
+		}); f != nil {
+			res.Fail = f
+			return res
+		}
+		if structural != nil {
+			res.Fail = structural
+			return res
+		}
+	}
 	// behavioural: same probe on the used WAF and on the fresh WAF
 	// (readers after the recycled object buffered a new body are re-checked below)
 	ou, f := runProbe(used, &c.Probe)
